@@ -194,3 +194,4 @@ pub assume_specification[ str::trim_end ](s: &str) -> (r: &str);
 pub assume_specification[ str::trim_start ](s: &str) -> (r: &str);
 pub assume_specification[ str::trim ](s: &str) -> (r: &str);
 pub assume_specification[ str::to_lowercase ](s: &str) -> (r: String);
+pub assume_specification<'a>[ <core::str::Chars<'a> as Iterator>::count ](c: core::str::Chars<'a>) -> (r: usize);
